@@ -92,6 +92,14 @@ def gen_cases(spec):
             out.append((f2, main))
     elif k == "trunc":
         files, main = base_source(r, spec["chunk"])
+        if spec["chunk"] % 2:
+            # file keys longer than the small-string buffer
+            ren = {n: "/a/long/directory/name/for/the/project/%s.theo" % n for n in files}
+            files = {ren[n]: c for n, c in files.items()}
+            for n in list(files):
+                for old_, new_ in ren.items():
+                    files[n] = files[n].replace('"%s"' % old_, '"%s"' % new_)
+            main = ren[main]
         text = files[main]
         step = max(1, len(text) // (250 if any("DEFINE" in v for v in files.values()) else 700))
         for i in range(0, len(text) + 1, step):
@@ -115,7 +123,8 @@ def gen_cases(spec):
                  "x := #0", "x := $0", "DEFINE PRIO 99999999999 a AS b END DEFINE a", "DEFINE a AS $99999999999 END DEFINE a", "DEFINE f <ID> AS $4294967296 := 1 END DEFINE f x", "DEFINE f <ID> <INT> AS $4294967297 END DEFINE x := f y 3",
                  "DEFINE PRIO 4294967296 f <V> AS $0 END DEFINE x := f 1", "DEFINE f <V> AS $8589934592 END DEFINE x := f 1", "STOP STOP", "x := 1 x := 2",
                  "x := 1 PROGRAM f DO STOP END", "\x00", "x := 1\x00; y := 2", "\xff\xfe", "x := \"a\"", "\"", "\"unterminated"]
-        names = ["main", "a", "b", "__standards__", "-", "", "none", "#root"]
+        names = ["main", "a", "b", "__standards__", "-", "", "none", "#root", "a_file_name_longer_than_fifteen_characters.theo",
+                 "/home/user/projects/theo/another quite long path/with spaces/main.theo"]
         for _ in range(500):
             nf = r.randint(0, 4)
             files = {}
@@ -123,7 +132,10 @@ def gen_cases(spec):
                 files[r.choice(names)] = r.choice(progs)
             main = r.choice(names + ["absent"])
             out.append((files, main))
+        long_ = "a_file_name_longer_than_fifteen_characters.theo"
         for p in progs:
+            out.append(({long_: p}, long_))
+            out.append(({"main": 'x := 1 ;\ninclude "%s"\ny := 2' % long_, long_: p}, "main"))
             out.append(({"main": p}, "main"))
             out.append(({"main": 'include "a"\n' + p, "a": p}, "main"))
             out.append(({"__standards__": p}, "__standards__"))
